@@ -4,12 +4,10 @@ go 1.23
 
 require (
 	github.com/akalin/gopar v0.0.0
+	github.com/klauspost/cpuid/v2 v2.0.2
 	pgregory.net/rapid v1.3.0
 )
 
-require (
-	github.com/klauspost/cpuid/v2 v2.0.2 // indirect
-	github.com/klauspost/reedsolomon v1.9.11 // indirect
-)
+require github.com/klauspost/reedsolomon v1.9.11 // indirect
 
 replace github.com/akalin/gopar => /repo
